@@ -360,3 +360,112 @@ def restore_rule(chk, prog, roles, rule="RESTORE", fields=None):
                             "every return of %s leaves the configuration fields (%s) as they were at entry" % (fn, ", ".join(fields or INSTANCE_FIELDS_CONFIG)),
                             "fields still modified on this path: %s" % sorted(d))
     return netdirty, n
+
+
+class _OrderDomain:
+    """state: frozenset of operand expressions (text) from which a derived value (the REX/VEX prefix bits) has been
+    computed; a later call that rewrites that operand invalidates the derived value"""
+
+    def __init__(self, prog, readers, writers):
+        self.prog, self.readers, self.writers = prog, readers, writers
+        self.viol = []
+        self.nread = 0
+
+    def copy(self, s): return s
+    def join(self, a, b): return a | b
+    def equal(self, a, b): return a == b
+    def widen(self, o, n): return n
+
+    def decl(self, vd, s):
+        for c in kids(vd):
+            s = self.eval(c, s)
+        return s
+
+    def eval(self, e, s):
+        e0 = strip(e)
+        if not e0 or s is None:
+            return s
+        if e0.get("kind") == "CallExpr":
+            for a in call_args(e0):
+                s = self.eval(a, s)
+            cn = callee_name(e0)
+            args = [expr_str(strip(a, casts=True)) for a in call_args(e0)]
+            if cn in self.writers:
+                idxs = self.writers[cn]
+                for i in idxs:
+                    tgt = args[i] if i < len(args) else None
+                    if tgt in s:
+                        self.viol.append((e0, "%s() rewrites %s after the prefix bits were derived from it" % (cn, tgt)))
+                if not idxs and s:
+                    # the writer addresses the operand by position (instr, m): any derived value is suspect
+                    self.viol.append((e0, "%s() may rewrite the memory operand after the prefix bits were derived from it" % cn))
+            if cn in self.readers:
+                self.nread += 1
+                s = s | frozenset(args[i] for i in self.readers[cn] if i < len(args))
+            return s
+        for c in kids(e0):
+            s = self.eval(c, s)
+        return s
+
+    def assume(self, e, t, s): return s
+    def ret(self, n, s): pass
+
+
+def prefix_after_rewrite_rule(chk, prog, rule="ORDER"):
+    """the REX/VEX extension bits are derived from the operands only after every rewriting of those operands
+    (index/base swap, no-base rewriting): effect summaries decide who reads and who writes operand.reg/index"""
+    lib = prog.lib_functions()
+    g = EFF.call_graph(prog)
+    fx = EFF.field_effects(prog, g)
+    opfields = {("operand", "reg"), ("operand", "index")}
+
+    def trans(fn, kind):
+        out = set()
+        for r in EFF.reachable(g, [fn]):
+            if r in fx:
+                out |= fx[r][kind]
+        return out
+    # readers: the functions whose result is stored into <record>.hex.rex (they derive R/X/B/W from the operands)
+    readers, writers = {}, {}
+    hosts = set()
+    for fn, f in lib.items():
+        for m in walk(prog.body(f)):
+            if m.get("kind") in ("BinaryOperator", "CompoundAssignOperator") and m.get("opcode") in ("=", "|="):
+                l, r = strip(kids(m)[0]), strip(kids(m)[1], casts=True)
+                if l.get("kind") == "MemberExpr" and l.get("name") == "rex" and EFF.owner_field(l)[0] == "prefix" and \
+                        r.get("kind") == "CallExpr" and callee_name(r) in lib:
+                    cn = callee_name(r)
+                    ps = prog.params(lib[cn])
+                    readers[cn] = [i for i, p in enumerate(ps) if qtype(p) == "struct operand *"]
+                    hosts.add(fn)
+    # writers: functions called by the same hosts that (transitively) write operand.reg / operand.index
+    for h in hosts:
+        for c in walk(prog.body(lib[h])):
+            if c.get("kind") == "CallExpr" and callee_name(c) in lib and callee_name(c) not in readers:
+                cn = callee_name(c)
+                if trans(cn, "w") & opfields:
+                    ps = prog.params(lib[cn])
+                    writers[cn] = [i for i, p in enumerate(ps) if qtype(p) == "struct operand *"]
+    if not readers:
+        chk.broken(rule, rule + "/readers", "-", "the function deriving REX bits from operands is visible", "none found")
+        return
+    chk.analysed["prefix_readers"] = sorted(readers)
+    chk.analysed["operand_rewriters"] = sorted(writers)
+    n = 0
+    for fn, f in sorted(lib.items()):
+        if fn in readers or fn in writers:
+            continue
+        if not any(c.get("kind") == "CallExpr" and callee_name(c) in readers for c in walk(prog.body(f))):
+            continue
+        dom = _OrderDomain(prog, readers, writers)
+        Flow(dom).function(prog, f, frozenset())
+        n += dom.nread
+        seen = set()
+        for node, text in dom.viol:
+            key = "%s/%s/%s" % (rule, fn, callee_name(node))
+            if key not in seen:
+                seen.add(key)
+                chk.bad(rule, key, loc_str(node), "in %s the prefix bits are derived after the operand's final rewriting" % fn, text)
+        if not dom.viol:
+            chk.ok(rule, "%s/%s" % (rule, fn), loc_str(f), "in %s no operand is rewritten after the prefix bits were derived from it" % fn)
+    chk.floor("prefix derivation sites", n, 4)
